@@ -297,3 +297,42 @@ Theorem C18_rounded_point_is_high_pixel :
     round_pt (edge_point r0 c0 ul ur ll lr e) = high_pixel r0 c0 ul ur ll lr e.
 Proof. exact rounded_point_is_high_pixel. Qed.
 Print Assumptions C18_rounded_point_is_high_pixel.
+
+(* Lifted to whole images: both endpoints of every segment that
+   iterate_and_store emits (any image, either connectivity) round to a high
+   pixel that has a low 4-neighbour, i.e. the contour runs on the boundary
+   pixels of the mask.  (That the assembled contour visits all of them and
+   refills to the mask is checked by the oracle runs only.) *)
+Theorem C18_contour_points_are_boundary_pixels :
+  forall (img : image) (vch : bool) (sgs : list (pt * pt)) (s : pt * pt),
+    iterate_and_store img vch = Some sgs -> In s sgs ->
+    is_boundary img (round_pt (fst s)) /\ is_boundary img (round_pt (snd s)).
+Proof. exact contour_points_are_boundary_pixels. Qed.
+Print Assumptions C18_contour_points_are_boundary_pixels.
+
+(* Conversely every horizontally / vertically adjacent pair of differing
+   pixels inside the image contributes an endpoint that rounds to its high
+   pixel: the rounded endpoints are exactly the boundary pixels. *)
+Theorem C18_boundary_pixels_are_emitted_horizontal :
+  forall (img : image) (vch : bool) (sgs : list (pt * pt)) (r c : nat),
+    iterate_and_store img vch = Some sgs ->
+    (r < nrows img)%nat -> (S c < ncols img)%nat ->
+    px img r c <> px img r (S c) ->
+    exists s, In s sgs /\
+      let hp := if px img r c then (Z.of_nat r, Z.of_nat c)
+                else (Z.of_nat r, Z.of_nat (S c)) in
+      (round_pt (fst s) = hp \/ round_pt (snd s) = hp).
+Proof. exact boundary_pair_emitted_h. Qed.
+Print Assumptions C18_boundary_pixels_are_emitted_horizontal.
+
+Theorem C18_boundary_pixels_are_emitted_vertical :
+  forall (img : image) (vch : bool) (sgs : list (pt * pt)) (r c : nat),
+    iterate_and_store img vch = Some sgs ->
+    (S r < nrows img)%nat -> (c < ncols img)%nat ->
+    px img r c <> px img (S r) c ->
+    exists s, In s sgs /\
+      let hp := if px img r c then (Z.of_nat r, Z.of_nat c)
+                else (Z.of_nat (S r), Z.of_nat c) in
+      (round_pt (fst s) = hp \/ round_pt (snd s) = hp).
+Proof. exact boundary_pair_emitted_v. Qed.
+Print Assumptions C18_boundary_pixels_are_emitted_vertical.
